@@ -74,9 +74,10 @@ Definition P_init := 0.  Definition P_next := 1.  Definition P_add := 2.  Defini
 Definition P_skip := 4.  Definition P_stop := 5.  Definition P_end := 6.
 
 (* what a worker does between two statements of the library: its script *)
-Inductive uop := UNext | UAdd (r : Z) | UDone | USkip | USkipIf | UStop | UEnd.
+Inductive uop := UNext | UAdd (r : Z) | UDone | USkip | USkipIf | UStop | UEnd
+  | UAutoAdd (r : Z) | UAutoDone.   (* inserted by the sampling loop itself, see [to_script] *)
 Definition entry_of (u : uop) : nat :=
-  match u with UNext => P_next | UAdd _ => P_add | UDone => P_done | USkip | USkipIf => P_skip | UStop => P_stop | UEnd => P_end end.
+  match u with UNext => P_next | UAdd _ | UAutoAdd _ => P_add | UDone | UAutoDone => P_done | USkip | USkipIf => P_skip | UStop => P_stop | UEnd => P_end end.
 
 (* ---------------------------------------------------------------------------------------- *)
 (* state *)
@@ -99,9 +100,10 @@ Definition study0 (mx : option nat) := {| s_trials := []; s_pend := 0; s_comp :=
 Record algo := { a_spec : bool; a_np : nat; a_nf : nat;
                  a_fed : list (nat * nat);          (* ghost: (study, trial id) in the order they were fed back *)
                  e_pending : list dna; e_init : bool; e_pop : list dna; e_gen : nat; e_lockgen : nat;
-                 ig_np : nat; ig_nf : nat; e_setups : nat }.
+                 ig_np : nat; ig_nf : nat; e_setups : nat;
+                 a_fit : list (nat * Z) }.         (* proposal id -> fitness stored in the DNA's metadata by Evolution._feedback *)
 Definition algo0 := {| a_spec := false; a_np := 0; a_nf := 0; a_fed := []; e_pending := []; e_init := false; e_pop := []; e_gen := 0;
-                       e_lockgen := 0; ig_np := 0; ig_nf := 0; e_setups := 0 |}.
+                       e_lockgen := 0; ig_np := 0; ig_nf := 0; e_setups := 0; a_fit := [] |}.
 
 (* studies are addressed by creation number; [nstudies] of them have been created so far (the others are pristine) *)
 Record gstate := { studies : nat -> study; nstudies : nat; registry : option nat; alg : algo; locks : lockid -> option nat }.
@@ -210,13 +212,16 @@ Definition st_full (b : bool) (st : study) : study :=
 
 Definition al_base (sp : bool) (np nf : nat) (fed : list (nat * nat)) (a : algo) : algo :=
   {| a_spec := sp; a_np := np; a_nf := nf; a_fed := fed; e_pending := e_pending a; e_init := e_init a; e_pop := e_pop a; e_gen := e_gen a;
-     e_lockgen := e_lockgen a; ig_np := ig_np a; ig_nf := ig_nf a; e_setups := e_setups a |}.
+     e_lockgen := e_lockgen a; ig_np := ig_np a; ig_nf := ig_nf a; e_setups := e_setups a; a_fit := a_fit a |}.
 Definition al_evo (pend : list dna) (ini : bool) (pop : list dna) (gen : nat) (a : algo) : algo :=
   {| a_spec := a_spec a; a_np := a_np a; a_nf := a_nf a; a_fed := a_fed a; e_pending := pend; e_init := ini; e_pop := pop; e_gen := gen;
-     e_lockgen := e_lockgen a; ig_np := ig_np a; ig_nf := ig_nf a; e_setups := e_setups a |}.
+     e_lockgen := e_lockgen a; ig_np := ig_np a; ig_nf := ig_nf a; e_setups := e_setups a; a_fit := a_fit a |}.
 Definition al_misc (lockgen np nf setups : nat) (a : algo) : algo :=
   {| a_spec := a_spec a; a_np := a_np a; a_nf := a_nf a; a_fed := a_fed a; e_pending := e_pending a; e_init := e_init a; e_pop := e_pop a; e_gen := e_gen a;
-     e_lockgen := lockgen; ig_np := np; ig_nf := nf; e_setups := setups |}.
+     e_lockgen := lockgen; ig_np := np; ig_nf := nf; e_setups := setups; a_fit := a_fit a |}.
+Definition al_fit (f : list (nat * Z)) (a : algo) : algo :=
+  {| a_spec := a_spec a; a_np := a_np a; a_nf := a_nf a; a_fed := a_fed a; e_pending := e_pending a; e_init := e_init a; e_pop := e_pop a; e_gen := e_gen a;
+     e_lockgen := e_lockgen a; ig_np := ig_np a; ig_nf := ig_nf a; e_setups := e_setups a; a_fit := f |}.
 
 Definition th_pc (p : option (nat * nat)) (th : tstate) : tstate :=
   {| pc := p; script := script th; held := held th; r_study := r_study th; r_group := r_group th; r_gnone := r_gnone th; r_trial := r_trial th;
@@ -395,6 +400,7 @@ Definition muts (c : cfg) (me : nat) (e : effect) (g : gstate) (th : tstate) : l
       | Some i, Some x => [MTrial i TFed; MAlg (al_base (a_spec a) (a_np a) (S (a_nf a)) (a_fed a ++ [(s, t_id x)]) a)]
       | _, _ => [MAlg (al_base (a_spec a) (a_np a) (S (a_nf a)) (a_fed a) a)]
       end
+  | ESetFitness => [MAlg (al_fit ((d_pid (r_dna th), match r_reward th with Some z => z | None => 0%Z end) :: a_fit a) a)]
   | EInitGenSetup => [MAlg (al_misc (e_lockgen a) 0 0 (e_setups a) a)]
   | EResetGen => [MAlg (al_evo (e_pending a) (e_init a) (e_pop a) 0 a)]
   | ESetPopInit b => [MAlg (al_evo (e_pending a) b (e_pop a) (e_gen a) a)]
@@ -510,18 +516,35 @@ Definition eff_writes (e : effect) : list var :=
 Definition fetch (ps : progs) (p i : nat) : option (bool * act) :=
   match nth_error ps p with Some pr => nth_error pr i | None => None end.
 
-(* the worker's script decides what is called next; USkipIf is dropped when the last call returned False *)
-Fixpoint next_call (s : list uop) (ret : bool) : option (uop * list uop) :=
+(* the worker's script decides what is called next; USkipIf is dropped when the last call returned False,
+   UAutoDone when the call before it ended with an exception *)
+Fixpoint next_call (s : list uop) (ret raised : bool) : option (uop * list uop) :=
   match s with
   | [] => None
-  | USkipIf :: r => if ret then Some (USkipIf, r) else next_call r ret
+  | USkipIf :: r => if ret then Some (USkipIf, r) else next_call r ret raised
+  | UAutoDone :: r => if raised then next_call r ret raised else Some (UAutoDone, r)
   | u :: r => Some (u, r)
   end.
 
-Definition to_script (th : tstate) : tstate :=
-  match next_call (script th) (r_ret th) with
+Fixpoint zlookup (l : list (nat * Z)) (k : nat) : option Z :=
+  match l with [] => None | (k', v) :: r => if Nat.eqb k' k then Some v else zlookup r k end.
+
+(* sample(): when next() hands out a trial whose DNA already carries a reward (a co-worker of the group has completed
+   it meanwhile and Evolution._feedback has stored the fitness in the DNA's metadata), the loop reports that reward itself
+   (`feedback(reward)` under ignore_race_condition) and asks for the next trial, without yielding to the worker *)
+Definition auto_reward (c : cfg) (g : gstate) (p : nat) (th : tstate) : option Z :=
+  if Nat.eqb p P_next && c_evo c
+  then match otrial (study_of g (r_study th)) (r_cur th) with
+       | Some x => zlookup (a_fit (alg g)) (d_pid (t_dna x))
+       | None => None
+       end
+  else None.
+
+Definition to_script (auto : option Z) (raised : bool) (th : tstate) : tstate :=
+  let s := match auto with Some r => UAutoAdd r :: UAutoDone :: UNext :: script th | None => script th end in
+  match next_call s (r_ret th) raised with
   | None => th_pc None th
-  | Some (u, r) => th_pc (Some (entry_of u, 0)) (th_script r (match u with UAdd z => z | _ => r_arg th end) th)
+  | Some (u, r) => th_pc (Some (entry_of u, 0)) (th_script r (match u with UAdd z | UAutoAdd z => z | _ => r_arg th end) th)
   end.
 
 Definition set_th (ts : list tstate) (t : nat) (th : tstate) : list tstate := upd_nth t (fun _ => th) ts.
@@ -546,8 +569,8 @@ Definition step_act (c : cfg) (t : nat) (a : act) (p i : nat) (g : gstate) (th :
       Some (note_full cn b g th, goto (if b then S i else S i + off) (note_branch cn b th))
   | Jump off => Some (g, goto (S i + off) th)
   | Throw XStop => Some (g, th_pc None th)
-  | Throw _ => Some (g, to_script th)
-  | Done => Some (g, to_script th)
+  | Throw _ => Some (g, to_script None true th)
+  | Done => Some (g, to_script (auto_reward c g p th) false th)
   end.
 
 (* None: thread t cannot move (finished, or blocked on a lock) *)
@@ -559,7 +582,7 @@ Definition step1 (ps : progs) (c : cfg) (g : gstate) (ts : list tstate) (t : nat
       | None => None
       | Some (p, i) =>
           match fetch ps p i with
-          | None => Some (g, set_th ts t (to_script th))              (* falling off the end of an entry: return *)
+          | None => Some (g, set_th ts t (to_script (auto_reward c g p th) false th))   (* falling off the end of an entry: return *)
           | Some (_, a) =>
               match step_act c t a p i g th with
               | None => None
